@@ -297,45 +297,83 @@ func (c *cli) ruleExit(r *Report) {
 				if !ok {
 					continue
 				}
-				code, isExit := isExitCall(ci)
+				_, isExit := isExitCall(ci)
 				if !isExit {
 					continue
 				}
 				nExit++
-				key := c.key(fn, fmt.Sprintf("os.Exit#%d", nExit))
-				pos := c.w.Pos(ci.Pos())
-				if code < 0 || code > 2 {
-					r.Bad(rule, key, pos, "exit status is not one of the documented constants 0, 1, 2")
-					continue
+				// exit events: the constant handed to os.Exit, or — when the
+				// status is chosen into a variable first — each constant that
+				// arrives over an edge of the phi, located at that edge
+				type event struct {
+					code int64
+					pred *ssa.BasicBlock // nil: at the call itself
+					at   *ssa.BasicBlock
+					ok   bool
 				}
-				if code != 1 {
-					r.Ok(rule, key, pos, fmt.Sprintf("constant exit status %d", code))
-					continue
+				var events []event
+				arg := ci.Common().Args[0]
+				if k, isK := constInt(arg); isK {
+					events = append(events, event{k, nil, b, true})
+				} else if phi, isPhi := arg.(*ssa.Phi); isPhi {
+					for i, e := range phi.Edges {
+						if k, isK := constInt(e); isK {
+							events = append(events, event{k, phi.Block().Preds[i], phi.Block(), true})
+						} else {
+							events = append(events, event{-1, phi.Block().Preds[i], phi.Block(), false})
+						}
+					}
+				} else {
+					events = append(events, event{-1, nil, b, false})
 				}
-				// E2: exit 1 only behind the diff routine's boolean
-				ok2 := false
-				why := "exit status 1 is not controlled by the boolean result of the diff routine"
-				for _, bb := range fn.Blocks {
-					cond, tE, fE, okb := branchEdges(bb)
-					if !okb {
+				for ei, ev := range events {
+					key := c.key(fn, fmt.Sprintf("os.Exit#%d", nExit))
+					if len(events) > 1 {
+						key = c.key(fn, fmt.Sprintf("os.Exit#%d[%d]", nExit, ei))
+					}
+					pos := c.w.Pos(ci.Pos())
+					code := ev.code
+					if !ev.ok || code < 0 || code > 2 {
+						r.Bad(rule, key, pos, "exit status is not one of the documented constants 0, 1, 2")
 						continue
 					}
-					ex, isEx := cond.(*ssa.Extract)
-					if !isEx {
+					if code != 1 {
+						r.Ok(rule, key, pos, fmt.Sprintf("constant exit status %d", code))
 						continue
 					}
-					call, isCall := ex.Tuple.(*ssa.Call)
-					if !isCall {
-						continue
-					}
-					sf := staticCallee(call)
-					if sf == nil || fnPkg(sf) != c.pkg.Pkg || !isDiffRoutine(sf) || ex.Index != 1 {
-						continue
-					}
-					if edgeDominates(tE, b) {
+					// E2: exit 1 only behind the diff routine's boolean
+					ok2 := false
+					why := "exit status 1 is not controlled by the boolean result of the diff routine"
+					for _, bb := range fn.Blocks {
+						cond, tE, fE, okb := branchEdges(bb)
+						if !okb {
+							continue
+						}
+						ex, isEx := cond.(*ssa.Extract)
+						if !isEx {
+							continue
+						}
+						call, isCall := ex.Tuple.(*ssa.Call)
+						if !isCall {
+							continue
+						}
+						sf := staticCallee(call)
+						if sf == nil || fnPkg(sf) != c.pkg.Pkg || !isDiffRoutine(sf) || ex.Index != 1 {
+							continue
+						}
+						behind := false
+						if ev.pred == nil {
+							behind = edgeDominates(tE, ev.at)
+						} else {
+							behind = edgeDominatesOrIs(tE, ev.pred, ev.at)
+						}
+						if !behind {
+							continue
+						}
 						// the other side must exit 0
 						other := false
-						for blk := range reachFrom(fE.To(), nil) {
+						otherReach := reachFrom(fE.To(), nil)
+						for blk := range otherReach {
 							for _, in2 := range blk.Instrs {
 								if c2, isC := in2.(ssa.CallInstruction); isC {
 									if cd, isE := isExitCall(c2); isE && cd == 0 {
@@ -344,12 +382,17 @@ func (c *cli) ruleExit(r *Report) {
 								}
 							}
 						}
+						for _, e2 := range events {
+							if e2.ok && e2.code == 0 && e2.pred != nil && (otherReach[e2.pred] && e2.pred != bb || (e2.pred == bb && fE.To() == e2.at)) {
+								other = true
+							}
+						}
 						if other {
 							ok2, why = true, "exit status 1 exactly on the edge where the diff routine reports a difference; the other edge exits 0"
 						}
 					}
+					r.Check(ok2, rule, key, pos, why, why)
 				}
-				r.Check(ok2, rule, key, pos, why, why)
 			}
 		}
 	}
@@ -444,6 +487,31 @@ func (c *cli) errorHandled(v ssa.Value, helpers map[*ssa.Function]bool, seen map
 		case *ssa.Phi:
 			if ok, why := c.errorHandled(u, helpers, seen); ok {
 				return ok, why
+			}
+		case *ssa.Store:
+			// spilled into a result cell (named results, range-over-func
+			// bodies): handled when what is loaded from the cell is
+			if u.Val != v {
+				continue
+			}
+			cell, isCell := closureCell(u.Addr).(*ssa.Alloc)
+			if !isCell {
+				continue
+			}
+			handled, why := false, ""
+			withClosures(cell.Parent(), func(f *ssa.Function) {
+				allInstrs(f, func(in ssa.Instruction) {
+					ld, ok := in.(*ssa.UnOp)
+					if !ok || ld.Op != token.MUL || closureCell(ld.X) != ssa.Value(cell) || handled {
+						return
+					}
+					if ok2, w2 := c.errorHandled(ld, helpers, seen); ok2 {
+						handled, why = true, w2
+					}
+				})
+			})
+			if handled {
+				return true, why
 			}
 		case *ssa.BinOp:
 			if (u.Op != token.NEQ && u.Op != token.EQL) || !(isNilConst(u.X) || isNilConst(u.Y)) {
@@ -1538,7 +1606,7 @@ func (c *cli) rulePlumbing(r *Report) {
 	const rule = "R-CLI/P"
 	for _, fn := range c.fns {
 		all := c.libCalls(fn, reachFrom(fn.Blocks[0], nil))
-		if !(all["ReadJsonString"] && all["ReadYamlString"]) {
+		if !(all["ReadJsonString"] && all["ReadYamlString"]) && !isDiffRoutine(fn) {
 			continue
 		}
 		pos := c.w.Pos(fn.Pos())
@@ -1553,6 +1621,70 @@ func (c *cli) rulePlumbing(r *Report) {
 		}
 		r.Fn(fnName(fn))
 		if isDiffRoutine(fn) {
+			// what is rendered is what the library's Diff returned for the
+			// two inputs — on every path (no zero diff standing in for
+			// "inputs look the same, nothing was read")
+			nR := 0
+			allInstrs(fn, func(in ssa.Instruction) {
+				call, ok := in.(*ssa.Call)
+				if !ok {
+					return
+				}
+				switch c.libCallee(call) {
+				case "Render", "RenderPatch", "RenderMerge":
+				default:
+					return
+				}
+				recv, _ := callArgs(call)
+				if recv == nil {
+					return
+				}
+				nR++
+				bad := ""
+				var leaves func(v ssa.Value, seen map[ssa.Value]bool, depth int)
+				leaves = func(v ssa.Value, seen map[ssa.Value]bool, depth int) {
+					v = strip(v)
+					if seen[v] || bad != "" {
+						return
+					}
+					seen[v] = true
+					switch x := v.(type) {
+					case *ssa.Phi:
+						for _, e := range x.Edges {
+							leaves(e, seen, depth)
+						}
+					case *ssa.Call:
+						if c.libCallee(x) == "Diff" {
+							return
+						}
+						if sf := staticCallee(x); sf != nil && fnPkg(sf) == c.pkg.Pkg && sf.Blocks != nil && depth < 2 {
+							for _, ret := range returnsOf(sf) {
+								leaves(ret.Results[0], map[ssa.Value]bool{}, depth+1)
+							}
+							return
+						}
+						bad = valueName(v)
+					case *ssa.Extract:
+						if cc, ok := x.Tuple.(*ssa.Call); ok {
+							if sf := staticCallee(cc); sf != nil && fnPkg(sf) == c.pkg.Pkg && sf.Blocks != nil && depth < 2 {
+								for _, ret := range returnsOf(sf) {
+									if x.Index < len(ret.Results) && !c.isErrRet(ret) {
+										leaves(ret.Results[x.Index], map[ssa.Value]bool{}, depth+1)
+									}
+								}
+								return
+							}
+						}
+						bad = valueName(v)
+					default:
+						bad = valueName(v)
+					}
+				}
+				leaves(recv, map[ssa.Value]bool{}, 0)
+				r.Check(bad == "", rule, c.key(fn, fmt.Sprintf("rendered-is-Diff(a,b)#%d", nR)), c.w.Pos(call.Pos()),
+					"the diff that is rendered is, on every path, the result of the library's Diff",
+					"the diff that is rendered is not the result of the library's Diff on every path ("+bad+"): some inputs are reported without being read and compared")
+			})
 			// a -> receiver of Diff, b -> argument of Diff
 			allInstrs(fn, func(in ssa.Instruction) {
 				call, ok := in.(*ssa.Call)
@@ -1606,6 +1738,12 @@ func (c *cli) ruleNoPanic(r *Report) {
 		allInstrs(fn, func(in ssa.Instruction) {
 			switch x := in.(type) {
 			case *ssa.Panic:
+				if x.Pos() == token.NoPos || strings.HasPrefix(x.Block().Comment, "rangefunc.") || x.Block().Comment == "yield-invalid" {
+					// the compiler's misuse guards of a range-over-func loop
+					// (iterator resumed after exit / yield called after return):
+					// not reachable with a well-behaved iterator, not written by anyone
+					return
+				}
 				n++
 				r.Bad(rule, c.key(fn, "panic"), c.w.Pos(x.Pos()), "package main panics: the user sees a Go stack trace instead of a one-line message and exit status 2")
 			case ssa.CallInstruction:
@@ -1798,4 +1936,9 @@ func (c *cli) ruleLibrarySelect(r *Report) {
 			}
 		}
 	}
+}
+
+// isErrRet: the return certainly carries a non-nil error (its other results are placeholders).
+func (c *cli) isErrRet(ret *ssa.Return) bool {
+	return newErrAnalysis(c.w).isErrorReturn(ret)
 }
